@@ -89,6 +89,10 @@ FOCI = [
     "`Stream`, `_computehash`, `_cast_to_bytes`, `_shard`, `_build_hashstore_data_object_path`, `_get_hashstore_*_path`: typing, docstrings, rename locals, replace `os.path.join` with Path `/` where the result is identical for all inputs actually passed, keep iteration/read behaviour exactly.",
     "`hashstoreclient.py` `main()`: split the long if/elif over actions into one small function per action called from a dispatch dict, with the same argument handling (same None defaults, same order of evaluation, same prints and exceptions).",
     "`_find_object`, `_verify_hashstore_references`, `_verify_object_information`, `delete_if_invalid_object`, `_delete_object_only`: extract error-message builders, guard clauses instead of nested if/else, keep every raise (class and condition), every deletion and every claim exactly.",
+    "the identifier claims: introduce `@contextmanager` helpers (e.g. `_object_pid_claim(pid)`, `_cid_claim(cid)`, `_reference_pid_claim(pid)`, `_metadata_doc_claim(pid_doc)`) that call the existing `_synchronize_*` / `_release_*` helpers (or the inline blocks of store_metadata/delete_metadata) in a try/finally around `yield`, and use them with `with` in `delete_object`, `_delete_object_only`, `_store_hashstore_refs_files`, `store_metadata` and `delete_metadata` in place of the explicit try/finally blocks - claim and release points must stay exactly where they are (same order of claims, same order of releases).",
+    "pathlib modernisation across `filehashstore.py`: replace `os.path.join` / `os.path.dirname` / `os.path.isfile` / `os.path.exists` / `os.path.getsize` by the equivalent `Path` operations ONLY where the result is identical for every input that reaches the call (beware: `Path.is_file()` swallows some OSErrors that `os.path.isfile` also swallows - that pair is equivalent; `Path(x) / y` with absolute `y` restarts like `os.path.join`); keep `shutil.move`, `os.remove` and `open` calls and their order.",
+    "error handling tidy-up WITHOUT changing which exceptions propagate: name the exception variables consistently, replace `raise err` / `raise e` by bare `raise` only where the traceback difference is the only effect, merge duplicated log-message construction into small helpers, keep every `except` clause's class list, order and body effects (deletions, releases) identical.",
+    "`delete_metadata` and `delete_object`: reduce nesting - early returns, loop bodies extracted into private methods (e.g. `_delete_one_metadata_document(pid, path, objects_to_delete)`), keep the per-document claim / re-check / rename / release sequence and the order of `_delete_marked_files` / `delete_metadata` calls exactly.",
 ]
 
 
